@@ -54,6 +54,9 @@ type Prog struct {
 	PartIDs   []string            `json:"-"` // scalar programs: the marker id of every part (scalar.go)
 	FailParts []int               `json:"-"` // scalar programs: the parts whose output segments differed
 	Origin    string              `json:"origin,omitempty"`
+	// operand programs (operand.go): the minimal one-closure programs of the records that differ
+	Min            func(co, io Obs) []*Prog `json:"-"`
+	failCo, failIo Obs
 }
 
 // Obs is what one execution shows.
@@ -264,7 +267,8 @@ func runCmd(timeout time.Duration, dir string, env []string, name string, args .
 	cmd.SysProcAttr = &syscall.SysProcAttr{Setpgid: true}
 	cmd.Cancel = func() error { return syscall.Kill(-cmd.Process.Pid, syscall.SIGKILL) }
 	var so, se bytes.Buffer
-	cmd.Stdout, cmd.Stderr = &limitW{b: &so, n: 1 << 20}, &limitW{b: &se, n: 1 << 18}
+	// (stdout: the operand programs of the thorough tier print up to ~6 MiB of records)
+	cmd.Stdout, cmd.Stderr = &limitW{b: &so, n: 1 << 24}, &limitW{b: &se, n: 1 << 18}
 	err := cmd.Run()
 	exit = 0
 	if err != nil {
@@ -325,11 +329,67 @@ func errKind(stderr, root string) string {
 	return strings.TrimSpace(line)
 }
 
-var rePhpLine = regexp.MustCompile(`(\.php):\d+`)
+var (
+	rePhpLine = regexp.MustCompile(`(\.php):\d+`)
+	reOnLine  = regexp.MustCompile(`(\.php on line) \d+`)
+)
 
-// normOut: file positions are normalised (var_dump prints "<file>:<line>:").
-func normOut(out, root string) string {
-	return rePhpLine.ReplaceAllString(strings.ReplaceAll(out, root, ""), "$1")
+// normOut: file positions are normalised (var_dump prints "<file>:<line>:", a diagnostic written
+// to stdout — `Deprecated: Using null as an array offset … in <file> on line <n>` — ends with the
+// line). The generated program builds every node with one zero `from`, so every position it
+// prints is line 1 / 1:1: ONE known finding (C16-no-source-positions, feature
+// `pos-diagnostic-line`, compared with keepPos) instead of one report per feature that happens to
+// print a diagnostic.
+func normOut(out, root string, keepPos bool) string {
+	out = strings.ReplaceAll(out, root, "")
+	if keepPos {
+		return out
+	}
+	return reOnLine.ReplaceAllString(rePhpLine.ReplaceAllString(dropGoStacks(out), "$1"), "$1")
+}
+
+// dropGoStacks: a Go panic inside a script `try` becomes a script exception whose message carries
+// `stack: goroutine 1 [running…]:` and the Go stack of the binary that raised it — frames, addresses
+// and the goroutine state differ between any two binaries (here: the interpreted side runs from
+// init()). The panic text itself stays; the frames go.
+func dropGoStacks(out string) string {
+	if !strings.Contains(out, "stack: goroutine ") {
+		return out
+	}
+	lines := strings.Split(out, "\n")
+	var keep []string
+	for i := 0; i < len(lines); i++ {
+		j := strings.Index(lines[i], "stack: goroutine ")
+		if j < 0 {
+			keep = append(keep, lines[i])
+			continue
+		}
+		keep = append(keep, lines[i][:j]+"stack: <go stack>")
+		// frames: a function line followed by a tab-indented file line; `created by …`; blank lines between goroutines
+		for i+1 < len(lines) {
+			n := lines[i+1]
+			frame := strings.HasPrefix(n, "\t") || strings.HasPrefix(n, "created by ") || strings.HasPrefix(n, "goroutine ") ||
+				(i+2 < len(lines) && strings.HasPrefix(lines[i+2], "\t") && !strings.HasPrefix(n, "#"))
+			if !frame {
+				break
+			}
+			i++
+		}
+	}
+	return strings.Join(keep, "\n")
+}
+
+// posTag: the feature of the known finding about positions; its programs are compared with the
+// positions they print.
+const posTag = "pos-diagnostic-line"
+
+func keepsPos(p *Prog) bool {
+	for _, t := range p.Tags {
+		if t == posTag {
+			return true
+		}
+	}
+	return false
 }
 
 // RunBatch translates, builds and runs one batch.
@@ -584,7 +644,7 @@ func RunBatch(c *vh.Ctx, idx int, progs []*Prog, runTimeout time.Duration) *Batc
 			for j := range ch {
 				args := append([]string{j.mode, filepath.Join(entry, j.p.Name+".php")}, nsArgs[j.p.Name]...)
 				so, se, ex := runCmd(runTimeout, root, append(os.Environ(), "GOMEMLIMIT=1500MiB"), runner, args...)
-				o := Obs{Out: normOut(so, root), ErrKind: errKind(se, root), Exit: ex, Raw: head(strings.ReplaceAll(se, root, ""), 500)}
+				o := Obs{Out: normOut(so, root, keepsPos(j.p)), ErrKind: errKind(se, root), Exit: ex, Raw: head(strings.ReplaceAll(se, root, ""), 500)}
 				mu.Lock()
 				if j.mode == "compiled" {
 					res.Compiled[j.p.Name] = o
